@@ -40,7 +40,7 @@ import (
 // capacity poolCount+10; no login field value can make the constructor panic.
 //
 //verif:contract ~/server.NewControl
-//verif:props C11 C16 C05
+//verif:props C11 C16 C05 C04
 func verif_NewControl(ctx context.Context, rc *controller.ResourceController, pxyManager *proxy.Manager,
 	pluginManager *plugin.Manager, authVerifier auth.Verifier, ctlConn net.Conn, ctlConnEncrypted bool,
 	loginMsg *msg.Login, serverCfg *v1.ServerConfig,
@@ -57,6 +57,10 @@ func verif_NewControl(ctx context.Context, rc *controller.ResourceController, px
 		verif.Ensures(ctl.poolCount >= 0, "pool_nonneg")
 		verif.Ensures(verif.ChanCap(ctl.workConnCh) == ctl.poolCount+10, "pool_capacity_bounded")
 		verif.Ensures(!verif.Closed(ctl.workConnCh) && !verif.Closed(ctl.doneCh), "channels_open")
+		// C04: the session verifies pings and work connections with exactly the
+		// verifier the caller decided on (RegisterControl: the configured one, or
+		// always-pass only for internal connections that ask for it) - nothing in
+		// the login message can change that here
 		verif.Ensures(ctl.authVerifier == authVerifier && ctl.loginMsg == loginMsg && ctl.runID == loginMsg.RunID, "wired")
 		// C05 "no control-message content appears in clear": unless the caller says
 		// the connection needs no encryption (internal connections), control
@@ -180,6 +184,16 @@ func verif_RegisterControl(svr *Service, ctlConn net.Conn, loginMsg *msg.Login, 
 		verif.Ensures(verif.CalledWith("server.NewControl", 4, want), "session_uses_verifier_in_force")
 		// C05: every connection that did not come from inside the process gets the cipher stream
 		verif.Ensures(verif.CalledWith("server.NewControl", 6, !internal) && verif.Same(verif.NthArg[any]("server.NewControl", 0, 5), any(ctlConn)), "external_sessions_are_encrypted")
+	}
+	// "refused attempts ... do not disturb existing sessions": nothing is done to
+	// any existing session before the verifier in force has accepted the login -
+	// no session is closed, replaced or removed on behalf of an unauthenticated peer
+	if !verif.Called("Verifier).VerifyLogin") || verif.RetErr("Verifier).VerifyLogin", 0) != nil {
+		verif.Ensures(err != nil, "unverified_login_is_refused")
+		verif.Ensures(!verif.Called("Control).Close") && !verif.Called("Control).Replaced") && !verif.Called("ControlManager).Del") && !verif.Called("Conn).Close"), "unverified_login_touches_no_existing_session")
+	}
+	if verif.Called("Control).Close") || verif.Called("Control).Replaced") {
+		verif.Ensures(verif.CalledBefore("Verifier).VerifyLogin", "Control).Close") || verif.CalledBefore("Verifier).VerifyLogin", "Control).Replaced"), "existing_session_touched_only_after_verification")
 	}
 	if err != nil {
 		verif.Ensures(!verif.Called("ControlManager).Add"), "refused_login_not_in_table")
